@@ -61,6 +61,7 @@ type RModel struct {
 
 	locksHeld int
 	onceDone  map[*Value]bool
+	syncMaps  map[*Value]*Map
 }
 
 func newRModel(it *Interp) *RModel {
@@ -87,6 +88,7 @@ func (m *RModel) resetPath() {
 	m.bufs = map[*Value]*strings.Builder{}
 	m.locksHeld = 0
 	m.onceDone = nil
+	m.syncMaps = nil
 }
 
 func (m *RModel) rt(t types.Type) *RType {
